@@ -325,6 +325,8 @@ struct Sim<'a> {
     streams_dropped_any: bool,
     /// every handle slot is empty but pending operation futures still hold clones
     handles_dropped_pending: bool,
+    /// operations are being issued before connect(): nothing can be handled yet, no verdict
+    early_phase: bool,
 }
 
 #[derive(Clone, Debug)]
@@ -1127,7 +1129,7 @@ impl<'a> Sim<'a> {
             m.expected = Some(OpRes::Err(ErrSum::MaximumPacketSizeExceeded));
             m.final_step = Some(step);
         }
-        let exact = (self.cfg.auto_settle || (settle_now && clean_before)) && !size_unclear;
+        let exact = (self.cfg.auto_settle || (settle_now && clean_before)) && !size_unclear && !self.early_phase;
         if settle_now && !clean_before && !self.cfg.auto_settle {
             self.stats.inexact_starts += 1;
         }
@@ -1917,40 +1919,19 @@ pub fn run(scn: &Scenario, cfg: &SimCfg) -> SimOut {
 /// `run`, with the write half accepting nothing more from event index `block_at` on
 /// (back-pressure that is never released).
 pub fn run_with_block(scn: &Scenario, cfg: &SimCfg, block_at: usize) -> SimOut {
-    let mut w = World::new();
+    let w = World::new();
     let connack = rc::Connack {
         receive_maximum: scn.receive_max,
         maximum_packet_size: scn.max_packet_size,
         ..Default::default()
     };
-    let mut failures = vec![];
-    if let Err(e) = connect_and_run_v(&mut w, ConnectSpec::default(), &connack, &WritePlan::default(), scn.prologue) {
-        failures.push(Failure { sig: "HARNESS/prologue".into(), msg: e });
-        return SimOut { failures, stats: Stats::default(), proj: Projections::default() };
-    }
-    if scn.id_offset > 0 && !w.warm_up_identifiers(scn.id_offset) {
-        // a defect in plain publishing: reported by the properties that own it
-        failures.push(Failure {
-            sig: "C05/not-completed/pub1".into(),
-            msg: format!("warm-up of {} acknowledged QoS 1 publishes did not go through: panics {:?}, run {:?}", scn.id_offset, w.panics, w.run_result),
-        });
-        return SimOut { failures, stats: Stats::default(), proj: Projections::default() };
-    }
-    cfg.write.install(&w);
-    {
-        let mut r = w.reader.0.borrow_mut();
-        r.cap = cfg.read_cap as usize;
-        r.yield_first = cfg.read_yield;
-    }
-    let mut tr = Tracker::new();
-    tr.skip_existing(&mut w);
     let mut sim = Sim {
         w,
         cfg,
-        tr,
+        tr: Tracker::new(),
         mops: vec![],
         msubs: vec![],
-        failures,
+        failures: vec![],
         stats: Stats::default(),
         r: scn.receive_max.map(|v| v as u32).unwrap_or(65535),
         max_packet_size: scn.max_packet_size,
@@ -1967,8 +1948,57 @@ pub fn run_with_block(scn: &Scenario, cfg: &SimCfg, block_at: usize) -> SimOut {
         last_ack_order: vec![],
         streams_dropped_any: false,
         handles_dropped_pending: false,
+        early_phase: false,
     };
-    for (k, ev) in scn.events.iter().enumerate() {
+    // prologue bit 7: the first (up to three) operations of the history are issued, and their
+    // futures polled once, BEFORE connect() is called - the crate documentation's own pattern of
+    // using the handle while another task is still connecting. run() finds them in the queue.
+    let mut first_event = 0;
+    if scn.prologue & 128 != 0 && scn.prologue & 64 == 0 && scn.id_offset == 0 {
+        sim.early_phase = true;
+        while first_event < scn.events.len() && first_event < 3 {
+            let Ev::Start { h, kind, .. } = &scn.events[first_event] else { break };
+            sim.w.tick();
+            let before = sim.w.ops.len();
+            sim.start(*h, *kind, false, false);
+            if sim.w.ops.len() > before {
+                sim.w.poll_op(before);
+            }
+            first_event += 1;
+        }
+        sim.early_phase = false;
+        if first_event > 0 {
+            sim.stats.kinds.insert("issued-before-connect");
+        }
+    }
+    if let Err(e) = connect_and_run_v(&mut sim.w, ConnectSpec::default(), &connack, &WritePlan::default(), scn.prologue & 127) {
+        sim.failures.push(Failure { sig: "HARNESS/prologue".into(), msg: e });
+        return SimOut { failures: sim.failures, stats: Stats::default(), proj: Projections::default() };
+    }
+    if scn.id_offset > 0 && !sim.w.warm_up_identifiers(scn.id_offset) {
+        // a defect in plain publishing: reported by the properties that own it
+        sim.failures.push(Failure {
+            sig: "C05/not-completed/pub1".into(),
+            msg: format!("warm-up of {} acknowledged QoS 1 publishes did not go through: panics {:?}, run {:?}", scn.id_offset, sim.w.panics, sim.w.run_result),
+        });
+        return SimOut { failures: sim.failures, stats: Stats::default(), proj: Projections::default() };
+    }
+    cfg.write.install(&sim.w);
+    {
+        let mut r = sim.w.reader.0.borrow_mut();
+        r.cap = cfg.read_cap as usize;
+        r.yield_first = cfg.read_yield;
+    }
+    if first_event > 0 {
+        // only the handshake is skipped: the early requests were written when run() started
+        sim.tr.skip_handshake(&mut sim.w);
+        sim.mark_ctx_polled();
+        sim.after_activity();
+        sim.on_completions();
+    } else {
+        sim.tr.skip_existing(&mut sim.w);
+    }
+    for (k, ev) in scn.events.iter().enumerate().skip(first_event) {
         if k == block_at {
             sim.w.writer.0.borrow_mut().credit = Some(0);
         }
